@@ -65,4 +65,9 @@ def _c06():
     return {"builders": [gk.build], "level": "other", "explanation": "type gate"}
 
 
-PROPS = {"C07": _c07, "C06": _c06, "C20": _c20, "C01": _c01, "C05": _c05}
+def _c09():
+    import stack as sk
+    return {"builders": [sk.build], "level": "proof", "explanation": "scope/call stack pairing lemmas and RAII guard lemmas"}
+
+
+PROPS = {"C09": _c09, "C07": _c07, "C06": _c06, "C20": _c20, "C01": _c01, "C05": _c05}
